@@ -68,7 +68,8 @@ def conv_sram_inst(name, dwm, dws, awm, depth, init=None, mode="A", adrs=None, s
     return WbInst(name, top, lean_open, master_gen=ClassicMaster(nbm, (1 << awm) - 1, cti_random=True), monitor=mon)
 
 
-def remap_inst(name, dw, aw, origin, size, regions, addressing="word", depth=None, init=None, mode="A", adrs=None):
+def remap_inst(name, dw, aw, origin, size, regions, addressing="word", depth=None, init=None, mode="A", adrs=None,
+               hot_adrs=()):
     nb = dw // 8
     init = init or []
     top = L.build_remap(dw, aw, origin, size, regions, addressing, depth=depth, init=list(init) or None)
@@ -86,8 +87,9 @@ def remap_inst(name, dw, aw, origin, size, regions, addressing="word", depth=Non
             alpha = L.with_slave(ml, [(0, 0, 0), (1, L.lane_values(nb)[1], 0), (0, 0, 1)])
             return WbInst(name, top, lean_open, alphabet=alpha, kind="adapter", monitor=lambda: SlaveSideMonitor())
         mon = lambda: Both(MasterMemMonitor(nb, 1 << 48, max_wait=40, adr_map=wmap), SlaveSideMonitor())
-        return WbInst(name, top, lean_open, kind="adapter", master_gen=ClassicMaster(nb, (1 << aw_sig) - 1),
-                      slave_gen=RefSlave(nb), monitor=mon)
+        return WbInst(name, top, lean_open, kind="adapter",
+                      master_gen=ClassicMaster(nb, (1 << aw_sig) - 1, hot_adrs=hot_adrs),
+                      slave_gen=RefSlave(nb, adr_shift=L.log2i(nb) if addressing == "byte" else 0), monitor=mon)
     lean_open = P("remap_sram", *p, depth, *init)
     alpha = L.master_letters(nb, adrs, [(1 << nb) - 1, 1], L.lane_values(nb)) if mode == "A" else None
     mon = lambda: MasterMemMonitor(nb, depth * nb, init_bytes(init, nb), max_wait=4, adr_map=wmap)
@@ -212,18 +214,27 @@ def jobs(tier):
     A(lambda: cache_inst("Cache 16->8 / SRAM d8", 2, 16, 8, 2, 3, depth=8, adrs=range(4), sels=[3, 1]), q=2000)
     # --- realistic sizes, random lock-step co-simulation with the monitors armed
     B(lambda: sram_inst("SRAM 4KiB dw32", 32, 1024, 30, mode="B", init=words_init(64, 4, lambda i: i * 0x01010101 + 7)))
-    B(lambda: sram_inst("SRAM 1KiB dw64 burst", 64, 128, 29, burst=True, mode="B"))
+    B(lambda: sram_inst("SRAM 1KiB dw64 burst", 64, 128, 29, burst=True, mode="B",
+                        init=words_init(128, 8, lambda i: (i + 3) * 0x0101010101010101 + i)))
     B(lambda: sram_inst("SRAM 256B dw32 burst", 32, 64, 30, burst=True, mode="B"))
     B(lambda: sram_inst("SRAM 512B dw128 read_only", 128, 32, 28, ro=True, mode="B",
                         init=words_init(32, 16, lambda i: (i + 1) * 0x0123456789ABCDEF0F1E2D3C4B5A6978)))
     for dwm, dws in ((64, 32), (128, 32), (64, 8), (32, 64), (32, 128), (8, 64)):
         B(lambda dwm=dwm, dws=dws: conv_inst("Converter %d->%d (ref slave)" % (dwm, dws), dwm, dws, 12, mode="B"))
-    B(lambda: conv_sram_inst("Down 64->32 / SRAM 1KiB", 64, 32, 10, 256, mode="B"))
+    B(lambda: conv_sram_inst("Down 64->32 / SRAM 1KiB", 64, 32, 10, 256, mode="B",
+                             init=words_init(200, 4, lambda i: 0x80000000 + i * 0x10203)))
     B(lambda: conv_sram_inst("Down 128->32 / SRAM 1KiB", 128, 32, 10, 256, mode="B",
                              init=words_init(256, 4, lambda i: i * 0x9E3779B1)))
-    B(lambda: conv_sram_inst("Up 32->128 / SRAM 1KiB", 32, 128, 10, 64, mode="B"))
+    B(lambda: conv_sram_inst("Up 32->128 / SRAM 1KiB", 32, 128, 10, 64, mode="B",
+                             init=words_init(64, 16, lambda i: (i + 1) * 0x0F1E2D3C4B5A69788796A5B4C3D2E1F0 + i)))
     B(lambda: remap_inst("Remap word dw32 3 regions (ref slave)", 32, 30, 0x0, 0x20000000,
                          [(0x0, 65536, 0xF0000000), (0x10000, 64, 0x81000000), (0x10040, 8, 0x20000000)], mode="B"))
+    B(lambda: remap_inst("Remap word dw64 high region (ref slave)", 64, 29, 0x0, None,
+                         [(0x90000000, 0x1000, 0x10000000), (0xF0000000, 0x100, 0x00000000)], mode="B",
+                         hot_adrs=[0x90000000 >> 3, (0x90000FF8 >> 3), 0x90001000 >> 3, 0xF0000010 >> 3, 0x8FFFFFF8 >> 3]))
+    B(lambda: remap_inst("Remap byte dw32 origin+2 regions (ref slave)", 32, 30, 0x40000000, 0x10000000,
+                         [(0x40010000, 64, 0x81000000), (0x40010040, 8, 0x20000000)], addressing="byte", mode="B",
+                         hot_adrs=[0x10000, 0x10004, 0x1003C, 0x10040, 0x10044, 0x10048, 0x5001_0040]))
     B(lambda: wb2csr_inst("Wishbone2CSR registered dw32", 32, 30, True, mode="B"))
     B(lambda: wb2csr_inst("Wishbone2CSR unregistered dw32", 32, 30, False, mode="B"))
     B(lambda: cache_inst("Cache 16 words 32->128 (ref slave)", 16, 32, 128, 12, 10, mode="B"))
@@ -254,11 +265,12 @@ def correspond(ctx):
 def search_instances(tier):
     """Small instances (address collisions are frequent) first, then the realistic ones."""
     S = []
-    S.append(lambda: sram_inst("search: SRAM d8 dw16", 16, 8, 4, mode="B"))
+    S.append(lambda: sram_inst("search: SRAM d8 dw16", 16, 8, 4, mode="B", init=[0x1101 * (i + 1) for i in range(8)]))
     S.append(lambda: sram_inst("search: SRAM d16 dw32 burst", 32, 16, 6, burst=True, mode="B"))
-    S.append(lambda: conv_sram_inst("search: Down 32->8 / SRAM d16", 32, 8, 3, 16, mode="B"))
+    S.append(lambda: conv_sram_inst("search: Down 32->8 / SRAM d16", 32, 8, 3, 16, mode="B", init=list(range(0x21, 0x31))))
     S.append(lambda: conv_sram_inst("search: Down 64->32 / SRAM d16", 64, 32, 4, 16, mode="B"))
-    S.append(lambda: conv_sram_inst("search: Up 8->32 / SRAM d4", 8, 32, 5, 4, mode="B"))
+    S.append(lambda: conv_sram_inst("search: Up 8->32 / SRAM d4", 8, 32, 5, 4, mode="B",
+                                    init=[0x04030201, 0x08070605, 0x0C0B0A09, 0x100F0E0D]))
     S.append(lambda: conv_inst("search: Converter 32->8 (ref slave)", 32, 8, 3, mode="B"))
     S.append(lambda: conv_inst("search: Converter 16->64 (ref slave)", 16, 64, 5, mode="B"))
     S.append(lambda: cache_inst("search: Cache 4 words 8->16 / SRAM d16 (zero init)", 4, 8, 16, 5, 4, depth=16, mode="B"))
@@ -268,6 +280,28 @@ def search_instances(tier):
     S.append(lambda: remap_inst("search: Remap word dw8 / SRAM d8", 8, 4, 0x0, 8, [(0x2, 2, 0x4), (0x4, 2, 0x2)], depth=8,
                                 mode="B"))
     return S
+
+
+def shrink_blocks(inst, trace, budget=600):
+    """Delta-debugging on the real code: drop blocks of cycles (whole bus cycles span several clock cycles, so
+    single-cycle deletion alone rarely keeps the master protocol-legal) while the monitor still fires."""
+    import explore
+    cur = list(trace)
+    r = explore.replay_with_monitor(inst, cur)
+    if not r:
+        return cur
+    cur = cur[:r[0] + 1]
+    for size in (64, 32, 16, 8, 6, 4, 3, 2, 1):
+        k = 0
+        while k + size <= len(cur) - 1 and budget > 0:
+            cand = cur[:k] + cur[k + size:]
+            budget -= 1
+            r = explore.replay_with_monitor(inst, cand)
+            if r:
+                cur = cand[:r[0] + 1]
+            else:
+                k += 1
+    return cur
 
 
 def closed_loop_search(inst, rng, deadline, tries, length):
@@ -289,7 +323,7 @@ def closed_loop_search(inst, rng, deadline, tries, length):
                 m = mon.observe(letter, outs)
                 if m:
                     n.restore(root)
-                    small = explore.shrink(inst, trace)
+                    small = shrink_blocks(inst, trace)
                     r = explore.replay_with_monitor(inst, small)
                     return (small, r[1]) if r else (trace, m)
     finally:
@@ -304,7 +338,16 @@ def search(ctx, disagreements, proof_info):
     # 1. a monitor that already fired during co-simulation
     for d in disagreements:
         if getattr(d, "kind", "").startswith("monitor:"):
-            return {"instance": d.inst_name, "trace": [list(l) for l in d.trace], "monitor": d.kind[8:],
+            trace, msg = d.trace, d.kind[8:]
+            try:        # minimise (drop cycles while the monitor still fires on the real code)
+                inst = all_jobs[d.job].make()
+                small = shrink_blocks(inst, list(trace))
+                r = explore.replay_with_monitor(inst, small)
+                if r:
+                    trace, msg = small, r[1]
+            except Exception:
+                pass
+            return {"instance": d.inst_name, "trace": [list(l) for l in trace], "monitor": msg,
                     "letter_format": L.FMT_ADAPTER, "source": "jobs"}
     # 2. disagreement traces replayed on the real code with the monitor armed
     for d in disagreements:
@@ -317,7 +360,7 @@ def search(ctx, disagreements, proof_info):
             continue
         r = explore.replay_with_monitor(inst, d.trace)
         if r:
-            tr = explore.shrink(inst, d.trace[:r[0] + 1])
+            tr = shrink_blocks(inst, d.trace[:r[0] + 1])
             return {"instance": inst.name, "trace": [list(l) for l in tr], "monitor": r[1],
                     "letter_format": L.FMT_ADAPTER, "source": "jobs"}
     # 3. closed-loop random search: the instances of the broken jobs first, then the search grid
